@@ -41,7 +41,7 @@ def finalize_base(h):
     h.check('population-untouched', 'seq_eq(a[0], b[0]) and seq_eq(a[1], b[1])', a=pop, b=pop0)
 
 
-@contract('C02/Powell.Finalize', ['C02', 'C03', 'C07'], SO + '::PowellDirectionalSolver.Finalize')
+@contract('C02/Powell.Finalize', ['C02', 'C03', 'C07', 'C04'], SO + '::PowellDirectionalSolver.Finalize')
 def finalize_powell(h):
     """for every combination of (decoupled energy history | none) x (live | stale) x any number of records"""
     eh = h.choice('energy_history_kind', ['None', 'list'])
@@ -55,8 +55,15 @@ def finalize_powell(h):
     if h.is_sym():
         h.set_summaries({('mystic/monitors.py', 'Monitor.__call__'): mon_call,
                          (A, 'AbstractSolver.__save_state'): lambda I, c, a, k: None})
+    live0 = h.field(s, '_live')
     h.call(h.getattr(s, 'Finalize'))
     h.check('objective-marked-stale', 'live is False', live=h.field(s, '_live'))
+    if h.is_sym():
+        # C04: Powell's last generation is logged by Finalize -- a LIVE solver gets exactly one step-monitor record when
+        # it is finalized (whether or not an energy history has been cached yet, e.g. with a generation limit of 0), a
+        # solver that is not live none (no duplicate when Finalize is called again)
+        nrec = len(h.st.ghost.get('records', []))
+        h.check('C04/a-live-solver-gets-its-closing-monitor-record-exactly-once', 'n == (1 if live0 else 0)', n=nrec, live0=live0)
 
 
 @contract('C07/AbstractSolver._update_objective', ['C07', 'C02'], A + '::AbstractSolver._update_objective')
